@@ -552,7 +552,7 @@ public:
   bool quadOnly = false;
   int series = 0; // 0 main, 2 simplex in dimension 5-6 at tight tolerances, 3 re-use of one object on correlated quadratics with small eigenvalues
   bool extra1d = false; // scenario of the extra one-dimensional series: objective mostly elsewhere at init(), tiny budgets
-  bool steer = true; // keep the main scenarios out of the regions of the known findings (probes switch it off)
+  bool steer = true; // (no region is steered around any more: the former simplex finding was a defect of its stop condition, fixed)
 
   explicit Driver(uint64_t seed) : g(seed), stats(), only() {}
 
@@ -594,9 +594,6 @@ public:
       else kind = u < 52 ? 0 : u < 64 ? 1 : u < 76 ? 2 : u < 88 ? 3 : 4;
     }
     auto f = std::make_shared<HFn>(n);
-    // known finding C10-simplex-premature-stop: the simplex method on quadratics with condition number >= 50 in
-    // dimension >= 5; the main scenarios stay below, the probe goes there
-    if (steer && opt == "DownhillSimplex" && n >= 5) f->kmax = 49.;
     if (series == 2 || series == 3) kind = 0;
     if (series == 2) f->plain = true;
     if (series == 3) f->forceSmall = true;
@@ -773,8 +770,7 @@ public:
       static const char* inner[] = {"Bfgs", "ConjugateGradient", "Powell", "DownhillSimplex", "Simple", "SimpleNewton"};
       auto desc = std::unique_ptr<bpp::MetaOptimizerInfos>(new bpp::MetaOptimizerInfos());
       unsigned nn = 1 + static_cast<unsigned>(g.below(4));
-      // known finding: the simplex method as above
-      bool simplexOk = !steer || n <= 4 || f->kappa < 50.;
+      bool simplexOk = true;
       size_t groups = (n >= 2 && g.coin()) ? 2 : 1;
       size_t cut = groups == 2 ? 1 + g.below(n - 1) : n;
       for (size_t gi = 0; gi < groups; ++gi)
@@ -961,6 +957,7 @@ public:
             for (size_t j = 0; j < n; ++j) gap += 0.5 * (x[i] - f->m[i]) * f->A[i][j] * (x[j] - f->m[j]);
         }
         double gq = gap / (tol * fs * f->kappa);
+        if (getenv("VERIF_DEBUG")) fprintf(stderr, "sc=%ld finish d=%g tol=%g c=%g lmin=%g kappa=%g ms=%g q=%g gap=%g nb=%u\n", id, d, tol, f->c, f->lmin, f->kappa, ms, q, gap, o->getNumberOfEvaluations());
         long gi = (gq != gq || gq > 1e6) ? 1000000000L : static_cast<long>(std::ceil(gq * 1000.));
         long qi = (q != q || q > 1e6) ? 1000000000L : static_cast<long>(std::ceil(q * 1000.));
         bool cv = (kind == 0) && inactive && tolr && opt != "NewtonBacktrack" && static_cast<long>(o->getNumberOfEvaluations()) < maxEval; // statistics only
